@@ -48,6 +48,10 @@ def rg(o):
     return "(Some (%s, %s))" % (nat(o["m"]), nlist(o.get("ps")))
 
 
+# a case the model must reject: the coordinator reports an error although the store's only answer was ok
+CANARY = "CCoord [WOk] false 1"
+
+
 def contiguous(xs):
     return all(xs[i] + 1 == xs[i + 1] for i in range(len(xs) - 1))
 
@@ -114,6 +118,10 @@ def case_coq(c):
     if k == "readsel":
         return "CReadSel %s %s [%s] %s %s" % ("true" if c["health"] else "false", nat(c["master"]),
                                               "; ".join("true" if x else "false" for x in c["online"]), nlist(c["shardPts"]), nlist(c.get("sel")))
+    if k == "batch":
+        m = {"ok": "WOk", "retry-pt": "WRetry", "retry-conn": "WRetry", "fail": "WFail", "shardmeta": "WFail"}
+        return "CBatch [%s] %s %s" % ("; ".join("[" + "; ".join(m[x] for x in sc) + "]" for sc in c["scripts"]),
+                                      "true" if c["acked"] else "false", nlist(c["calls"]))
     if k == "group" and c["forced"] == "replayrace":
         return "CGroupR %s" % ("true" if c["missing"] > 0 else "false")
     if k == "group" and c["forced"] == "lagmaster":
@@ -229,7 +237,7 @@ def main(ck):
                               "Print Assumptions: closed under the global context (no axioms)",
                               "Go harness cmd/c05 (fake raft driver, recording storage), python driver props/C05/run.py"]
     ck.coq_audit(["C05"])
-    ok = ck.coq_build(["C05/Final.vo", "C05/TruncProofs.vo", "C05/Catchup.vo", "C05/Refine.vo", "C05/RestartRace.vo", "C05/Corr.vo"])
+    ok = ck.coq_build(["C05/Final.vo", "C05/TruncProofs.vo", "C05/Catchup.vo", "C05/Refine.vo", "C05/RestartRace.vo", "C05/TruncPM.vo", "C05/Coord.vo", "C05/Corr.vo"])
     ck.c05_open = lambda fid: open_finding(ck, fid)     # for the cluster driver
     if ok:
         ck.coq_props(["C05/Props.v", "C05/Refuted.v"])
@@ -316,7 +324,7 @@ def main(ck):
         chunk = [cases[i] for i in midx[j:j + shard]]
         txt = ("From Coq Require Import List Arith NArith ZArith Bool. From OG Require Import C05.Model C05.Corr.\n"
                "Import ListNotations.\nDefinition cases : list case := [\n%s\n].\n"
-               "Definition M := Eval vm_compute in classify_all cases.\nPrint M.\n") % ";\n".join(case_coq(c) for c in chunk)
+               "Definition M := Eval vm_compute in classify_all cases.\nPrint M.\n") % ";\n".join([case_coq(c) for c in chunk] + [CANARY])
         files.append(("cases%d" % (j // shard), txt))
     res = ck.coq_eval_many(files, timeout=600) if ok else []
     codes = [0 if c["kind"] == "rgcreate" else None for c in cases]
@@ -324,9 +332,12 @@ def main(ck):
         m = re.search(r"M\s*=\s*\[(.*?)\]\s*:\s*list nat", o, re.S)
         want = midx[idx * shard:(idx + 1) * shard]
         got = [int(x) for x in re.findall(r"\d+", m.group(1))] if m else []
-        if rc2 != 0 or len(got) != len(want):
-            ck.broken.append("model evaluation failed on shard %d: %s" % (idx, o[-400:]))
+        # every shard ends with a canary case that the model must reject (code 3): a reading that does not see it is blind
+        if rc2 != 0 or len(got) != len(want) + 1 or got[-1] != 3 or any(g not in (0, 1, 2, 3) for g in got):
+            ck.broken.append("model evaluation failed on shard %d (codes read: %d of %d, canary %s): %s"
+                             % (idx, len(got), len(want) + 1, got[-1:] or "missing", o[-400:]))
             continue
+        got = got[:-1]
         for i, g in zip(want, got):
             codes[i] = g
 
@@ -430,7 +441,7 @@ def main(ck):
             return len(c.get("groups") or []) > 1
         if k == "replay":
             return bool(c.get("clears")) or c["commit"] > c["appliedAt"]
-        if k in ("conflict", "coord", "group", "send"):
+        if k in ("conflict", "coord", "group", "send", "batch"):
             return True
         if k == "readsel":
             return len(c.get("sel") or []) > 0
